@@ -48,11 +48,11 @@ REAL = ['smartquery.functions (regex builtins, flag parsing)', 'evaluator', 'reg
 STUB = ['regex engine for TIMING (virtual clock charged with the timeout passed)', 'wall clock read through time.*', 'host wait()']
 SIM_TIME = 'virtual seconds charged to regex engine entries and host waits (see counters virtual_ms)'
 REACH_PROBES = ('match', 'match_groups', 'match_all', 'flags', 'inside_lambda', 'long_subject', 'nested_quantifier', 'two_groups',
-                'time_passed_before_call', 'engine_entries')
+                'time_passed_before_call', 'engine_entries', 'slow_last_argument')
 
 FLAGS = [None, '', 'i', 'm', 's', 'ims', 'IM', 'is', 'x', 'zz', 'iiii']
 BENIGN = ['\\d+', '[a-z]+', '(\\w)(\\d)', 'b', '.', 'a|b', '^a', 'c$', '(a)(b)?', '\\s']
-NASTY = ['(a+)+$', '(a|aa)+$', '(a*)*b', '(a|a)*c', '(.*a){12}', '(a+)+(b)$', '((a+)(c?))+$', '(?:a{1,50}){1,50}b', '(\\w+\\s?)*$',
+NASTY = ['^(\\w+-?)+{id}$', 'a{x}(b+)+$', '(a+)+$', '(a|aa)+$', '(a*)*b', '(a|a)*c', '(.*a){12}', '(a+)+(b)$', '((a+)(c?))+$', '(?:a{1,50}){1,50}b', '(\\w+\\s?)*$',
          '(a|aa)+(c)$', '(?r)(a+)+b', '(?:aa|a)+?x{e<=1}', '(x+x+)+y', '(a)(b)\\1\\2(a+)+$']
 
 
@@ -60,6 +60,9 @@ def _call_tree(r, fn, subj, pat, flags):
     args = [subj, ['str', pat]]
     if flags is not None or r.random() < 0.1:
         args.append(['none'] if flags is None else ['str', flags])
+    if r.random() < 0.2:
+        # the LAST argument takes long to produce (a slow host lookup): time has passed when the builtin starts
+        args[-1] = ['call', 'slow', [args[-1], ['num', r.choice(['0.3', '1', '2.5', '5'])]], 'plain']
     return ['call', fn, args, gen.sugar(r, len(args))]
 
 
@@ -112,6 +115,13 @@ def execute(case, ctx):
         return None
     wait._sim_kind = 'host:wait'
     names['wait'] = wait
+
+    def slow(x, sec):
+        VCLOCK.advance(float(sec))
+        ctx.probe('slow_last_argument')
+        return x
+    slow._sim_kind = 'host:slow'
+    names['slow'] = slow
     parser = boot.fresh_parser()
     REGEX.reset('virtual')
     state = {'adv_after_wait': False}
